@@ -74,3 +74,79 @@ Proof.
   destruct (Hc c Hs) as [Hmem Hras]. cbv zeta. rewrite (Hras d i Hid).
   exact (reply_single c (request_layer k) Hreg Hmem i ok err x fr to p ch Hpl).
 Qed.
+
+(* ---------------------------------------------------------------- the pending request survives other traffic
+   Between the request and its reply anything else may arrive -- in particular a non-reply iq (the server's
+   ping, type get) or a reply for some other id, even one that happens to carry the pending request's id
+   but is not of type result / error.  None of that touches the entry, so the reply still yields exactly
+   the one entity.  (processIqRegistry removes an entry only for a result / error with that id.) *)
+Definition is_reply_for (i : string) (f : feat) : bool :=
+  String.eqb (f_tag f) "iq" && (oeq (f_type f) "result" || oeq (f_type f) "error") &&
+  match f_id f with Some j => String.eqb j i | None => false end.
+
+Lemma remove_other : forall ls l i ok err j, String.eqb j i = false ->
+  fold_left (fun s l' => reg_remove s l' j) ls [(l, i, ok, err)] = [(l : lid, i, ok, err) : reg_entry].
+Proof.
+  induction ls as [|l' ls IH]; intros l i ok err j Hj; [reflexivity|].
+  cbn [fold_left]. unfold reg_remove at 2. cbn [filter].
+  rewrite Hj, Bool.andb_false_r. cbn [negb].
+  apply IH. exact Hj.
+Qed.
+
+Lemma consume_other : forall ls l i ok err f, is_reply_for i f = false ->
+  consume [(l, i, ok, err)] ls f = [(l, i, ok, err)].
+Proof.
+  intros ls l i ok err f H. unfold consume, is_reply_for in *.
+  destruct (String.eqb (f_tag f) "iq" && (oeq (f_type f) "result" || oeq (f_type f) "error")); [|reflexivity].
+  cbn [andb] in H. destruct (f_id f) as [j|]; [|reflexivity].
+  apply remove_other. exact H.
+Qed.
+
+Theorem pending_survives_thm : forall c ax l i ok err fs,
+  forallb (fun f => negb (is_reply_for i f)) fs = true ->
+  fold_left (st_after_recv c ax) fs [(l, i, ok, err)] = [(l, i, ok, err)].
+Proof.
+  intros c ax l i ok err fs. induction fs as [|f fs IH]; intros H; [reflexivity|].
+  cbn [forallb] in H. apply Bool.andb_true_iff in H. destruct H as [Hf Hr].
+  cbn [fold_left]. unfold st_after_recv at 2. rewrite consume_other; [exact (IH Hr)|].
+  apply Bool.negb_true_iff. exact Hf.
+Qed.
+
+Theorem reply_once_after_traffic_thm : forall n ok err, In (n, ok, err) requests ->
+  exists k, find_kind n = Some k /\ forall c, supported c k = true ->
+    forall ax d i x fr to p ch fs, fd_id d = Some i -> plain_reply (request_layer k) x ch ->
+    forallb (fun f => negb (is_reply_for i f)) fs = true ->
+    let st := fold_left (st_after_recv c ax) fs (apply_registers [] (par_send repaired c (feat_of k d))) in
+    (let a := par_recv repaired c st (reply_feat x (Some "result") i fr to p ch) in
+     (ups a, downs a, raises a) = ([ok], [], 0)) /\
+    (let a := par_recv repaired c st (reply_feat x (Some "error") i fr to p ch) in
+     (ups a, downs a, raises a) = (match err with Some e => [e] | None => [] end, [], 0)).
+Proof.
+  intros n ok err Hin. pose proof requests_register as T. rewrite Forall_forall in T.
+  specialize (T _ Hin). cbn in T. destruct T as [k [Hk [Hreg Hc]]].
+  exists k. split; [exact Hk|]. intros c Hs ax d i x fr to p ch fs Hid Hpl Hfs.
+  destruct (Hc c Hs) as [Hmem Hras]. cbv zeta. rewrite (Hras d i Hid).
+  rewrite (pending_survives_thm c ax _ i (Some ok) err fs Hfs).
+  exact (reply_single c (request_layer k) Hreg Hmem i ok err x fr to p ch Hpl).
+Qed.
+
+(* the traffic hypothesis is satisfiable by the interesting case: a server ping (type get) carrying the very id *)
+Example ping_with_pending_id_is_traffic :
+  is_reply_for "7" (mkFeat "iq" (Some "urn:xmpp:ping") (Some "get") (Some "7") (Some "s.whatsapp.net") None None []
+                           [] false None false false false false false) = false.
+Proof. reflexivity. Qed.
+
+(* the shape a careless "pop first, look at the type afterwards" registry has: any iq with the id consumes *)
+Definition consume_popfirst (st : registry) (ls : list lid) (f : feat) : registry :=
+  if String.eqb (f_tag f) "iq" then
+    match f_id f with Some i => fold_left (fun s l => reg_remove s l i) ls st | None => st end
+  else st.
+
+Theorem popfirst_refuted : exists ls l i ok err f, is_reply_for i f = false /\
+  consume_popfirst [(l, i, ok, err)] ls f = [] /\ consume [(l, i, ok, err)] ls f = [(l, i, ok, err)].
+Proof.
+  exists [LPresence], LPresence, "7"%string, (Some "ResultLastseenIq"%string), None,
+    (mkFeat "iq" (Some "urn:xmpp:ping") (Some "get") (Some "7") (Some "s.whatsapp.net") None None []
+            [] false None false false false false false).
+  vm_compute. repeat split.
+Qed.
